@@ -336,7 +336,7 @@ def _gdot(gram, d):
 
 def gen_molecular(rng, row, nmols=1, sizes=(2, 3), n=48, vol_per_atom=32.0, with_h=True, max_tries=400,
                   boundary_prob=0.6, oblique=False, gram_fn=None, min_vol=150.0, halogens=0.0, bond_tolerance=0.4,
-                  face_bond=False, h_axis=None):
+                  face_bond=False, h_axis=None, h2=False):
     """A molecular crystal on the grid: `nmols` rigid mini-molecules (trees of bonded atoms) on general
     positions of setting `row`, bonded distances <= 1.5 A (X-H <= 1.12 A), every other contact >= 2.2 A.
     Returns a recipe dict (see build_crystal) with 'mols' = list of lists of asym indices (1-based) and
@@ -365,6 +365,9 @@ def gen_molecular(rng, row, nmols=1, sizes=(2, 3), n=48, vol_per_atom=32.0, with
         else:
             heavy = cand[(d2 >= 1.15 ** 2) & (d2 <= 1.5 ** 2)]
             light = cand[(d2 >= 0.85 ** 2) & (d2 <= 1.12 ** 2)]
+        hh = cand[(d2 >= 0.62 ** 2) & (d2 <= 0.76 ** 2)]            # H-H bonds (dihydrogen: 0.74 A; bonded below 0.86 A)
+        if h2 and len(hh) == 0:
+            continue
         if h_axis is not None:
             # X-H bonds exactly along one cell axis
             other = [c for c in range(3) if c != h_axis]
@@ -404,11 +407,21 @@ def gen_molecular(rng, row, nmols=1, sizes=(2, 3), n=48, vol_per_atom=32.0, with
                 if face_bond and m == 0:
                     p0[fax] = rng.randint(0, 2)
                 pts = [np.array(p0, dtype=np.int64)]
-                zs = [rng.choice([6, 7, 8])]
+                zs = [1] if h2 else [rng.choice([6, 7, 8])]
                 bl = []
                 good = True
                 for k in range(1, size):
                     parent = rng.randrange(len(pts))
+                    if h2:
+                        # a dihydrogen molecule: two hydrogens bonded to each other
+                        q = pts[0] + hh[rng.randrange(len(hh))]
+                        if k > 1:
+                            good = False
+                            break
+                        pts.append(q)
+                        zs.append(1)
+                        bl.append((0, 1))
+                        continue
                     if zs[parent] in HEAVY_BOND:
                         parent = 0
                     if hvec and zs[parent] != 1 and rng.random() < halogens:
